@@ -441,7 +441,7 @@ class File:
         :returns: The newly created section.
         :rtype: nixio.Section
         """
-        if name in self.sections:
+        if name in self._metadata:
             raise DuplicateName("create_section")
         sec = Section.create_new(self, self, self._metadata, name, type_, oid)
         return sec
